@@ -32,7 +32,7 @@ type PPledge struct {
 	Used  int64  `json:"used"`
 	CapPl int64  `json:"capPl"`
 	ShPl  int64  `json:"shPl"`
-	Rew   int64  `json:"rew"`  // milli-coins
+	Rew   int64  `json:"rew"`   // milli-coins
 	Debt  int64  `json:"rdebt"` // milli-coins (reward debt of the accumulator)
 }
 type PDebt struct {
@@ -143,16 +143,16 @@ type PDidBal struct {
 	Amt int64  `json:"amt"`
 }
 type PFault struct {
-	Id       string `json:"id"`
-	Order    int64  `json:"order"`
-	Data     string `json:"data"`
-	Shard    int64  `json:"shard"`
-	Commit   string `json:"commit"`
-	Provider string `json:"provider"`
-	Reporter string `json:"reporter"`
+	Id       string  `json:"id"`
+	Order    int64   `json:"order"`
+	Data     string  `json:"data"`
+	Shard    int64   `json:"shard"`
+	Commit   string  `json:"commit"`
+	Provider string  `json:"provider"`
+	Reporter string  `json:"reporter"`
 	Confirms []PVote `json:"confirms"`
-	Status   int64  `json:"status"`
-	Penalty  int64  `json:"penalty"`
+	Status   int64   `json:"status"`
+	Penalty  int64   `json:"penalty"`
 }
 type PVote struct {
 	S string `json:"s"` // "+" confirms the fault, "-" confirms the recovery
